@@ -6,6 +6,7 @@ can produce) x tempdir_format in {default, outside with {uuid}, outside without 
 but sharing the dataset path as a prefix, with a format spec} x compression x a previous dataset
 (larger / smaller) at the path with overwrite=True.  Observed on the REAL directory tree.
 """
+import json
 import os
 import shutil
 
@@ -87,6 +88,84 @@ def tempdir_format(mode, path, tmpbase):
     if mode == "trailing_slash":
         return os.path.join(tmpbase, "tmp-{uuid}-{partition}") + "/", tmpbase
     raise ValueError(mode)
+
+
+PROC_SCRIPT = r"""
+import json, os, sys
+sys.path[:0] = [sys.argv[1], sys.argv[2]]
+
+
+def main():
+    import dask
+    import dask.dataframe as dd
+    from vf.checks import c10
+    from spatialpandas.io import read_parquet_dask
+    work = sys.argv[3]
+    out = {}
+    P = c10.make_frame(2, 14, "pts")
+    for sched in ("synchronous", "processes"):
+        kw = dict(scheduler=sched) if sched == "synchronous" else dict(scheduler=sched, num_workers=2)
+        path = os.path.join(work, sched + ".parq")
+        tmpl = os.path.join(work, "tmp-" + sched, "t-{uuid}-{partition}")
+        os.makedirs(os.path.dirname(tmpl), exist_ok=True)
+        try:
+            with dask.config.set(**kw):
+                ret = dd.from_pandas(P, npartitions=3).pack_partitions_to_parquet(path, npartitions=4, p=6, tempdir_format=tmpl,
+                                                                                 _retry_args=c10.RETRY)
+                got = sorted(int(v) for v in ret.compute()["val"].tolist())
+            back = sorted(int(v) for v in read_parquet_dask(path).compute(scheduler="synchronous")["val"].tolist())
+            out[sched] = {"returned": got, "read_back": back, "tree": [list(t) for t in c10.tree(path)],
+                          "temp_left": [list(t) for t in c10.tree(os.path.dirname(tmpl))]}
+        except Exception as ex:
+            out[sched] = {"raised": type(ex).__name__ + ": " + str(ex)[:200]}
+    print("RESULT " + json.dumps(out))
+
+
+if __name__ == "__main__":
+    main()
+"""
+
+
+def process_scheduler(col, scratch):
+    """the same call with Dask's multiprocessing scheduler (workers share no memory with the caller), in a process of its
+    own: the dataset must be the one the synchronous scheduler leaves"""
+    import subprocess
+    import sys
+    work = os.path.join(scratch, f"proc-{os.getpid()}")
+    shutil.rmtree(work, ignore_errors=True)
+    os.makedirs(work)
+    script = os.path.join(work, "proc_run.py")
+    with open(script, "w") as f:
+        f.write(PROC_SCRIPT)
+    repo = os.environ.get("VERIF_REPO", "/repo")
+    verif = os.path.dirname(os.path.dirname(os.path.dirname(os.path.abspath(__file__))))
+    case = {"frame": 2, "n": 14, "scheduler": "processes"}
+    col.count("evaluations", 2)
+    try:
+        r = subprocess.run([sys.executable, script, repo, verif, work], capture_output=True, text=True, timeout=900,
+                           env=dict(os.environ, PYTHONPATH=f"{repo}:{verif}"))
+    except subprocess.TimeoutExpired:
+        col.count("process_scheduler_unavailable")
+        col.note("process-scheduler run timed out (not counted as a result)")
+        return
+    line = next((ln for ln in r.stdout.splitlines() if ln.startswith("RESULT ")), None)
+    if line is None:
+        # the environment cannot run a process pool here: this complement is skipped, nothing is claimed from it
+        col.count("process_scheduler_unavailable")
+        col.note(f"process-scheduler run produced no result: rc={r.returncode} {r.stderr[-300:]}")
+        return
+    out = json.loads(line[7:])
+    sync, proc = out.get("synchronous"), out.get("processes")
+    if "raised" in sync:
+        col.count("process_scheduler_unavailable")
+        col.note(f"reference run of the process-scheduler complement raised: {sync['raised']}")
+        return
+    if "raised" in proc:
+        col.violation("processes.raises", case, f"scheduler='processes': {proc['raised']}")
+    elif proc != sync:
+        diff = {k: (proc[k], sync[k]) for k in sync if proc.get(k) != sync[k]}
+        col.violation("processes.differs", case, f"scheduler='processes' leaves {json.dumps(diff)[:500]} (second = synchronous)")
+    shutil.rmtree(work, ignore_errors=True)
 
 
 def run_one(col, scratch, fid, n, active, kin, npk, mode, compression, previous, p=6, provenance="from_pandas"):
@@ -242,6 +321,7 @@ def run(ctx):
         for j in range(ci, len(cases), NCH):
             run_one(col, scratch, *cases[(j + ctx.seed) % len(cases)])
 
+    process_scheduler(ctx.col, scratch)
     core.pmap(ctx, work, NCH, timeout=7200)
     ctx.coverage_extra["runs"] = len(cases)
     ctx.rule = ("frames (two row pools incl. a degenerate extent, n rows, either geometry active) x input partitions 1..3 x "
